@@ -33,14 +33,14 @@ from ..tlc import cfg
 
 NEEDS_EXT = True
 
-ALL_OM, ALL_CURV, ALL_H = set(range(1, 6)), set(range(1, 16)), set(range(1, 9))
+ALL_OM, ALL_CURV, ALL_H = set(range(1, 6)), set(range(1, 16)), set(range(1, 11))
 BASE_KINDS = {"list", "f4", "f8", "i8", "strided"}
 BOUNDS = {
     "quick": dict(
         ctor=dict(OmIdx=ALL_OM, CurvIdx=ALL_CURV, HIdx=ALL_H, HMix=False),
         scalar=dict(OmIdx={1, 2, 3, 4}, CurvIdx={1, 3, 4, 5, 6, 9, 11}, HIdx={2, 3, 4, 5, 6, 8}, HMix=True,
                     ZIdx={1, 3, 5, 7, 8, 12, 14}),
-        copy=dict(OmIdx={2, 3, 5}, CurvIdx={1, 2, 4, 5, 9, 11, 12, 13, 14, 15}, HIdx={1, 2, 5, 6}, HMix=True),
+        copy=dict(OmIdx={2, 3, 5}, CurvIdx={1, 2, 4, 5, 9, 11, 12, 13, 14, 15}, HIdx={1, 2, 5, 6, 9}, HMix=True),
         dispatch=dict(Kinds=BASE_KINDS, MaxLen=3),
         nrandom=300),
     "thorough": dict(
@@ -85,6 +85,9 @@ def ctor_kwargs(args, variant=0):
 def construct(args, variant=0):
     from esutil.cosmology import Cosmo
     return Cosmo(**ctor_kwargs(args, variant))
+
+
+PNAMES = ("H0", "DH", "flat", "omega_m", "omega_l", "omega_k")
 
 
 def raw_params(obj):
@@ -146,7 +149,7 @@ def run_scalar(item):
     if out is None:
         return rec
     rec["der"] = out["der"]
-    ev = lat.Evaluator(obj, lat.frac(c["a"]), lat.frac(c["b"]), out["der"])
+    ev = lat.Evaluator(obj, lat.frac(c["a"]), lat.frac(c["b"]), out["der"], out["p"])
     with warnings.catch_warnings():
         warnings.simplefilter("ignore")
         for name in out["need"]:
@@ -186,7 +189,7 @@ def run_dispatch(item):
             "case": dict(c, ck=ck)}
 
 
-def _do_copy(kind, obj):
+def _do_copy(kind, obj, sel=0):
     if kind == "copy":
         return obj.copy()
     if kind == "copy.copy":
@@ -194,7 +197,7 @@ def _do_copy(kind, obj):
     if kind == "deepcopy":
         return _copy.deepcopy(obj)
     if kind == "pickle":
-        return pickle.loads(pickle.dumps(obj, protocol=pickle.HIGHEST_PROTOCOL if id(obj) % 2 else 2))
+        return pickle.loads(pickle.dumps(obj, protocol=pickle.HIGHEST_PROTOCOL if sel % 2 else 2))
     raise ValueError(kind)
 
 
@@ -210,12 +213,14 @@ def run_copy(item):
     rec["rep0"] = reported(root)
     p0, b0 = raw_params(root), battery(root)
     cur = root
-    for kind in c["chain"]:
+    for step, kind in enumerate(c["chain"]):
         st = {"err": "none", "rep": dict(NOREP), "same_params": False, "same_dist": False}
         try:
-            cur = _do_copy(kind, cur)
+            cur = _do_copy(kind, cur, i + step)
             st["rep"] = reported(cur)
-            st["same_params"] = bool(raw_params(cur) == p0)            # two implementation outputs
+            pc = raw_params(cur)
+            st["same_params"] = bool(pc == p0)                         # two implementation outputs
+            st["diff"] = [n for n, x, y in zip(PNAMES, pc, p0) if x != y]
             st["same_dist"] = bool(battery(cur) == b0 and battery(root) == b0)
         except Exception as e:  # noqa
             st["err"] = type(e).__name__
@@ -246,10 +251,14 @@ def trace_view(r):
 
 
 # ---- signatures ---------------------------------------------------------------------------------
-def _argclass(args):
+def _argclass(args, clause=""):
+    """structural class of the constructor arguments, restricted to what the clause depends on"""
+    hub = "H0=%s,h=%s" % ("default" if _isnone(args["H0"]) else "given", "absent" if _isnone(args["h"]) else "given")
+    if clause in ("norm_H0", "norm_DH"):
+        return hub
     ok = "none" if _isnone(args["ok"]) else ("zero" if args["ok"][0] == 0 else "nonzero")
-    return "flat=%s,omega_k=%s,omega_l=%s,h=%s" % (args["flat"], ok, "default" if _isnone(args["ol"]) else "given",
-                                                   "absent" if _isnone(args["h"]) else "given")
+    curv = "flat=%s,omega_k=%s,omega_l=%s" % (args["flat"], ok, "default" if _isnone(args["ol"]) else "given")
+    return curv + "," + hub if clause == "constructor_rejected" else curv
 
 
 def _shapeclass(s):
@@ -260,15 +269,21 @@ def _shapeclass(s):
 def signature(r, clause):
     t = r["t"]
     if clause.startswith("norm_") or clause == "constructor_rejected":
-        return "Cosmo()|%s|%s" % (clause, _argclass(r["args"]))
+        return "Cosmo()|%s|%s" % (clause, _argclass(r["args"], clause))
     if t == "scalar":
         return "%s|%s|scalar" % (IDENTS[clause]["entry"] if clause in IDENTS else "Cosmo", clause)
     if t == "dispatch":
-        return "%s|%s|%s,%s" % (r["q"], clause, _shapeclass(r["sa"]), _shapeclass(r["sb"]))
+        if clause == "mismatched_lengths_not_rejected":
+            return "%s|%s|array,array" % (r["q"], clause)
+        cls = {_shapeclass(r["sa"]), _shapeclass(r["sb"])}        # the most exotic array class involved
+        top = next((k for k in ("strided", "converted", "f8", "scalar") if k in cls), "scalar")
+        return "%s|%s|%s" % (r["q"], clause, top)
     if t == "copy":
-        bad = next((k for k, s in zip(r["chain"], r["steps"]) if s["err"] != "none" or not s["same_params"]
-                    or not s["same_dist"] or s["rep"] != r["rep0"]), r["chain"][0])
-        return "%s|%s|%s" % (bad, clause, _argclass(r["args"]))
+        bad = next(((k, s) for k, s in zip(r["chain"], r["steps"]) if s["err"] != "none" or not s["same_params"]
+                    or not s["same_dist"] or s["rep"] != r["rep0"]), None)
+        if bad is None or clause.startswith("norm_") or bad[1]["err"] != "none":
+            return "%s|%s|%s" % (bad[0] if bad else r["chain"][0], clause, _argclass(r["args"]))
+        return "%s|%s|differs=%s" % (bad[0], clause, "+".join(bad[1].get("diff", [])) or "no-parameter")
     return "Cosmo|%s|%s" % (clause, t)
 
 
@@ -411,7 +426,7 @@ def run(ctx):
     r = ctx.tlc("CosmoMC.tla", what="self-test: deviating mechanisms violate the refinement invariants",
                 cfg_text=cfg(constants=_consts(Deviate=True, OmIdx={2}, CurvIdx={1, 5}, HIdx={2}, Kinds={"f8"}, MaxLen=2), next_="Next",
                              invariants=["MechCopyRefines", "MechDispatchRefines"]),
-                workers=4, allow_violation=True, coverage=False, continue_=True, timeout=3000)
+                workers=1, allow_violation=True, coverage=False, continue_=True, timeout=3000)     # 1 worker: report order is deterministic
     if not {"MechCopyRefines", "MechDispatchRefines"} <= set(r.violated):
         raise MachineryError("self-test failed: deviating mechanisms not caught (%s)" % r.violated)
 
@@ -434,19 +449,26 @@ def run(ctx):
     recs = pmap(run_any, items)
     for r in recs:
         ctx.count({k: v for k, v in r["case"].items() if k not in ("outs", "expect")})
-    # non-vacuity: every identity of the catalogue was demanded and evaluated somewhere
-    seen = set()
-    for r in recs:
-        if r["t"] == "scalar":
-            seen.update(k for k, v in r["res"].items() if v[0] >= 0)
-    missing = set(IDENTS) - seen
-    if missing:
-        raise MachineryError("vacuous: identities never evaluated: %s" % sorted(missing))
+    # non-vacuity (spec side): every identity of the catalogue is demanded (or accepted as alternative) by some exported case
+    demanded = set()
+    for c in allc:
+        if c["t"] == "scalar":
+            for o in c["outs"]:
+                demanded.update(o["need"])
+    if set(IDENTS) - demanded:
+        raise MachineryError("vacuous: identities never demanded by an exported case: %s" % sorted(set(IDENTS) - demanded))
     for t in ("scalar", "ctor", "copy", "dispatch"):
         r = next(x for x in recs if x["t"] == t)
         ctx.sample({k: v for k, v in trace_view(r).items() if k != "der"})
     # 3. code -> spec
     rejects = judge(ctx, recs, "judge %d recorded observations (CosmoTrace)" % len(recs))
+    # non-vacuity (code side): on a run without violations every identity was also evaluated on the real code
+    seen = set()
+    for r in recs:
+        if r["t"] == "scalar":
+            seen.update(k for k, v in r["res"].items() if v[0] >= 0)
+    if not ctx.violations and set(IDENTS) - seen:
+        raise MachineryError("vacuous: identities never evaluated: %s" % sorted(set(IDENTS) - seen))
     for r in recs:
         if r["t"] == "dispatch" and not r["frame_ok"]:
             ctx.note(argument_modified=True)      # C15's subject; recorded, not judged here
@@ -475,48 +497,91 @@ def run(ctx):
         "numpy.polynomial.legendre.leggauss as the reference Gauss-Legendre rule, validated on every run by exact monomial moments up to degree 2n-1"]
     ctx.assumptions = [
         "parameters and redshifts on rational lattices (tenths / twentieths, integer H0, dyadic or quarter redshifts <= 5); float(Fraction) input error <= 1/2 ulp",
-        "the integrand is checked against the exact rational E^2 at lattice redshifts only; at the (irrational) quadrature nodes the object's own Ez_inverse is taken as the integrand",
+        "E^2(z) is computed by TLC as an exact rational at lattice redshifts; at the quadrature nodes (binary64 numbers) the exact integrand is the spec's expression tree evaluated in exact rational arithmetic (sqrt to 220 bits)",
+        "the 'documented fixed-order Gauss-Legendre rule' is read as the rule esutil itself exposes (esutil.integrate.gauleg, decided by C17 to 1e-9): sums are compared to rounding with that rule (or with the mathematically exact rule) and to 1e-9 with the exact rule; the 3e-11 / 4e-10 weight error of gauleg's Newton cut-off is therefore accepted",
+        "V's integrand: the object's own dV (to rounding) and, separately, DH Dm(0,z)^2/E(z) built from the exact 1/E by nested 5-point sums (to 1e-8)",
         "absolute size of the GL truncation error is checked at the Einstein-de Sitter anchors and through Hogg's addition formula on concordance-like parameters only",
         "4 pi G / c^2 is compared with the documented constant to 5e-4 (spread between compilations of physical constants)"]
 
 
 def selftest(ctx, recs, rejects):
     """corrupt one observation per clause family; the trace module must add exactly that clause"""
+    class _Skip(Exception):
+        pass
+
     def pick(t, pred):
         for r in recs:
             if r["t"] == t and pred(r):
                 return r["id"], json.loads(json.dumps(trace_view(r)))
+        if ctx.violations:          # the real code is broken in a way that leaves no clean record of this kind: that is a
+            raise _Skip()           # verdict (already recorded), not a failure of the machinery
         raise MachineryError("self-test: no %s record to corrupt" % t)
 
     def ok(r, name):
         return r["res"].get(name, [-1])[0] >= 0 and name not in rejects.get(r["id"], [])
+
+    def c_ctor():
+        i, a = pick("ctor", lambda r: r["id"] not in rejects)
+        a["rep"]["H0"] = [a["rep"]["H0"][0] + 1, a["rep"]["H0"][1]]
+        return i, a, "norm_H0"
+
+    def c_da():
+        i, b = pick("scalar", lambda r: ok(r, "da") and ok(r, "dm_sinh"))
+        b["res"]["da"] = [5, 1]
+        return i, b, "da"
+
+    def c_dl():
+        i, b = pick("scalar", lambda r: ok(r, "dl"))
+        del b["res"]["dl"]
+        return i, b, "dl"
+
+    def c_gt():
+        i, b = pick("scalar", lambda r: ok(r, "dm_open_gt_dc"))
+        b["res"]["dm_open_gt_dc"] = [3, -1]
+        return i, b, "dm_open_gt_dc"
+
+    def c_eds():
+        i, b = pick("scalar", lambda r: ok(r, "eds"))
+        b["res"]["eds"] = [1001 if lat.frac(b["b"]) <= 1 else 1000001, 1]
+        return i, b, "eds"
+
+    def c_gl5():                    # the primary and its accepted alternative both off -> rejected ...
+        i, b = pick("scalar", lambda r: ok(r, "gl5") and ok(r, "gl5_coarse"))
+        b["res"]["gl5"], b["res"]["gl5_alt"] = [25, 1], [25, -1]
+        return i, b, "gl5"
+
+    def c_gl5alt():                 # ... the primary off but the alternative within tolerance -> accepted
+        i, b = pick("scalar", lambda r: ok(r, "gl5") and ok(r, "gl5_coarse"))
+        b["res"]["gl5"], b["res"]["gl5_alt"] = [25, 1], [3, 1]
+        return i, b, None
+
+    def c_elem():
+        i, c = pick("dispatch", lambda r: r["obs"]["kind"] == "array" and r["obs"]["len"] >= 2 and r["id"] not in rejects)
+        c["obs"]["eq"][1] = False
+        return i, c, "element_ne_scalar"
+
+    def c_len():
+        i, c = pick("dispatch", lambda r: r["obs"]["kind"] == "rejected" and r["id"] not in rejects)
+        c["obs"] = {"kind": "array", "len": 1, "eq": [True]}
+        return i, c, "mismatched_lengths_not_rejected"
+
+    def c_copy():
+        i, d = pick("copy", lambda r: len(r["chain"]) == 3 and r["id"] not in rejects)
+        d["steps"][2]["same_dist"] = False
+        return i, d, "copy_distances_differ"
+
+    def c_good():
+        i, g = pick("scalar", lambda r: ok(r, "da"))
+        return i, g, None
+
     plan = []
-    i, a = pick("ctor", lambda r: r["id"] not in rejects)
-    a["rep"]["H0"] = [a["rep"]["H0"][0] + 1, a["rep"]["H0"][1]]
-    plan.append((i, a, "norm_H0"))
-    i, b = pick("scalar", lambda r: ok(r, "da") and ok(r, "dm_sinh"))
-    b["res"]["da"] = [5, 1]
-    plan.append((i, b, "da"))
-    i, b = pick("scalar", lambda r: ok(r, "dl"))
-    del b["res"]["dl"]
-    plan.append((i, b, "dl"))
-    i, b = pick("scalar", lambda r: ok(r, "dm_open_gt_dc"))
-    b["res"]["dm_open_gt_dc"] = [3, -1]
-    plan.append((i, b, "dm_open_gt_dc"))
-    i, b = pick("scalar", lambda r: ok(r, "eds"))
-    b["res"]["eds"] = [1001 if lat.frac(b["b"]) <= 1 else 1000001, 1]
-    plan.append((i, b, "eds"))
-    i, c = pick("dispatch", lambda r: r["obs"]["kind"] == "array" and r["obs"]["len"] >= 2 and r["id"] not in rejects)
-    c["obs"]["eq"][1] = False
-    plan.append((i, c, "element_ne_scalar"))
-    i, c = pick("dispatch", lambda r: r["obs"]["kind"] == "rejected" and r["id"] not in rejects)
-    c["obs"] = {"kind": "array", "len": 1, "eq": [True]}
-    plan.append((i, c, "mismatched_lengths_not_rejected"))
-    i, d = pick("copy", lambda r: len(r["chain"]) == 3 and r["id"] not in rejects)
-    d["steps"][2]["same_dist"] = False
-    plan.append((i, d, "copy_distances_differ"))
-    i, g = pick("scalar", lambda r: ok(r, "da"))
-    plan.append((i, g, None))
+    for mk in (c_ctor, c_da, c_dl, c_gt, c_eds, c_gl5, c_gl5alt, c_elem, c_len, c_copy, c_good):
+        try:
+            plan.append(mk())
+        except _Skip:
+            ctx.log("self-test item %s skipped: no clean record (violations present)" % mk.__name__)
+    if not plan:
+        return
     batch = []
     for k, (i, r, cl) in enumerate(plan, 1):
         r["id"] = k
